@@ -297,6 +297,14 @@ Definition judge_c15 (io : list Z) : list Z :=
   | _ => [0; 99]
   end.
 
+(* stream c15big: the same run preceded by the GOMAXPROCS setting of the harness, which the
+   property does not depend on *)
+Definition judge_c15big (io : list Z) : list Z :=
+  match io with
+  | _ :: rest => judge_c15 rest
+  | [] => [0; 99]
+  end.
+
 (* judge of the direct match64 stream: [w; key; ok; ix] *)
 Definition judge_m64 (io : list Z) : list Z :=
   match io with
